@@ -66,8 +66,16 @@ Select(set, req, strict) ==
 
 CONSTANTS
     Good,           \* contents of the source from which a certificate set can be built (set ids)
-    Unusable,       \* contents from which none can (broken PEM, key missing, ...)
-    Failing,        \* "contents" for which reading the source itself fails
+    Unusable,       \* contents with unusable material: SOMETHING THAT IS PRESENT cannot be used
+                    \* (broken PEM, key half missing, foreign key, a file that is listed but cannot
+                    \* be read, that is too large, that the server answers with an error page).
+                    \* Reading of the statement ("a source that delivers unusable material neither
+                    \* removes the working set nor spins"): one unusable piece makes the whole load
+                    \* unusable -- in particular when the other pieces are fine, else the certificate
+                    \* whose material broke would silently drop out of the working set.  Material
+                    \* that is simply ABSENT (a certificate deleted on purpose, no longer listed) is
+                    \* not unusable: that is a new, smaller Good content.
+    Failing,        \* "contents" for which reading the source itself fails (listing unavailable, ...)
     Clients,        \* concurrent handshakes
     Reqs,           \* server names a client may ask for (label sequences as in Part 1)
     MaxLoads,       \* bound on the watcher history
